@@ -2,6 +2,7 @@ SPECIFICATION Spec
 CONSTANTS
   Denoms = {"eth"}
   Mods <- Mods0
+  AddrMode = "simple"
   MaxTx = 1
   Fuel = 7
   Level = 2
